@@ -177,7 +177,7 @@ def model_check_pay(binary, workdir, tier):
 
 
 MC_FAMILIES = {  # cfg file, (quick depth, thorough depth)
-    "did": ("MC_Did.cfg", (6, 8)), "super": ("MC_Super.cfg", (5, 7)), "reward": ("MC_Reward.cfg", (6, 7)), "auth": ("MC_Auth.cfg", (6, 7)),
+    "timeout": ("MC_Timeout.cfg", (7, 9)), "did": ("MC_Did.cfg", (6, 8)), "super": ("MC_Super.cfg", (5, 7)), "reward": ("MC_Reward.cfg", (6, 7)), "auth": ("MC_Auth.cfg", (6, 7)),
 }
 MC_FAMILY_CFG = {"accounts": 8, "dids": 2, "validators": 2, "balance": 10000000, "blockReward": 840}
 
@@ -188,7 +188,8 @@ def model_check_families(binary, workdir, tier):
     for fam, (cfgfile, depths) in MC_FAMILIES.items():
         d = os.path.join(workdir, fam)
         stage_spec(d)
-        rc, o, _ = run([binary, "genesis", "--cfg", json.dumps(MC_FAMILY_CFG), "--out", os.path.join(d, "genesis.json")])
+        gcfg = MC_CFG if fam == "timeout" else MC_FAMILY_CFG   # the timeout family jumps over long spans: no block reward there
+        rc, o, _ = run([binary, "genesis", "--cfg", json.dumps(gcfg), "--out", os.path.join(d, "genesis.json")])
         if rc != 0:
             raise MachineryError("genesis failed: " + o[-1000:])
         depth = depths[0] if tier == "quick" else depths[1]
@@ -210,7 +211,7 @@ def model_check_families(binary, workdir, tier):
             beh = os.path.join(d, "cebeh")
             os.makedirs(beh, exist_ok=True)
             json.dump(states[-1]["hist"], open(os.path.join(beh, "beh_ce_%s.json" % fam), "w"))
-            rc2, o2, _ = run([binary, "replay", "--in", beh, "--out", os.path.join(d, "cereal"), "--cfg", json.dumps(MC_FAMILY_CFG)], timeout=600)
+            rc2, o2, _ = run([binary, "replay", "--in", beh, "--out", os.path.join(d, "cereal"), "--cfg", json.dumps(gcfg)], timeout=600)
             if rc2 not in (0, 3):
                 raise MachineryError("replay of the model counterexample failed: " + o2[-1000:])
             r["counterexample_trace"] = os.path.join(d, "cereal", "beh_ce_%s.ndjson" % fam)
